@@ -179,6 +179,12 @@ def run_case(case: dict[str, Any], wd: Path) -> dict[str, Any]:
             Cw = guarded("s_stretch(w)", p, R.s_stretch, N, p["theta_s"], p["theta_b"], stagger="w", Vstretching=p["Vstretching"])
             if Cr is None or Cw is None:
                 continue
+            if p["Vstretching"] == 1 and rng.random() < 0.2:
+                # the documented defaults (rho points, Vstretching 1) written out or left out: the same curve
+                Cd = guarded("s_stretch(defaults)", p, R.s_stretch, N, p["theta_s"], p["theta_b"])
+                bump("s_stretch_called_with_its_defaults")
+                if Cd is not None and not np.array_equal(np.asarray(Cd), np.asarray(Cr)):
+                    V.append(C.viol("s_stretch(N, theta_s, theta_b) with the defaults left out differs from the call with stagger='rho', Vstretching=1 written out", params=p))
             hin = h
             if hkind >= 0.3 and rng.random() < 0.4:
                 # the same bathymetry in another memory layout (Fortran order / a transposed view)
